@@ -16,11 +16,21 @@ import (
 //
 //   * exact, field by field, including nil-vs-empty for slices and maps and nil-vs-present for
 //     pointers (transaction / receipt / state-diff hashes and the RPC encodings depend on them);
-//   * EXCEPT a field tagged `cbor:",omitempty"` (InvokeTransaction.ProofFacts): the codec drops an
-//     empty value by design, so nil and empty are the same stored value (the transaction hash
-//     only looks at len(ProofFacts) > 0);
+//   * EXCEPT InvokeTransaction.ProofFacts, the one field declared `cbor:",omitempty"`: the codec
+//     drops an empty value by design, so nil and empty are the same stored value (the transaction
+//     hash only looks at len(ProofFacts) > 0). The exception is by NAME, not by tag: putting
+//     omitempty on another field is a change of what is stored and is reported (the blob header's
+//     two index lists are the other by-design case);
 //   * bloom filters by (*BloomFilter).Equal, big integers by Cmp (internal slack is not content).
 // ---------------------------------------------------------------------------------------------
+
+// omitemptyByDesign: the fields whose empty value is dropped by the codec on purpose (the index
+// lists of the blob header are internal: no accessor exposes their nil-ness).
+var omitemptyByDesign = map[string]bool{
+	"InvokeTransaction.ProofFacts":          true,
+	"BlockTransactionsIndexes.Transactions": true,
+	"BlockTransactionsIndexes.Receipts":     true,
+}
 
 // Diff returns "" when stored and got are equal, otherwise the path and kind of the first difference.
 func Diff(stored, got any) string {
@@ -115,7 +125,7 @@ func diffValue(a, b reflect.Value, path string, omitempty bool) string {
 				// compared through their accessors by the caller
 				continue
 			}
-			om := strings.Contains(f.Tag.Get("cbor"), ",omitempty")
+			om := omitemptyByDesign[a.Type().Name()+"."+f.Name]
 			if d := diffValue(a.Field(i), b.Field(i), path+"."+f.Name, om); d != "" {
 				return d
 			}
